@@ -47,7 +47,10 @@ func c10Item(e c10Entry, variant int) ap.Item {
 	if e.Who < 0 {
 		return nil
 	}
-	id := c10Base[e.Who]
+	id := fmt.Sprintf("https://example.com/crowd/%d", e.Who)
+	if e.Who < len(c10Base) {
+		id = c10Base[e.Who]
+	}
 	switch e.Form {
 	case "iri":
 		return ap.IRI(id)
@@ -385,6 +388,53 @@ func TestC10(t *testing.T) {
 		}
 		r.Cells(total, done)
 		r.Exhaustive("shared", !r.Replaying())
+	}
+	// long lists: 1..40 addressees mentioned once in the first list and again (spelled another way, or as an embedded actor) in the
+	// second, alone, followed by new ones, or interleaved with new ones - the number of entries one list loses is not bounded
+	if r.WantLayer("long", true) {
+		total := 0
+		for _, vr := range []struct{ gt, vt string }{{"Object", "Note"}, {"Activity", "Create"}, {"Question", "Question"}} {
+			for _, pp := range [][2]string{{"To", "CC"}, {"CC", "BCC"}, {"To", "Audience"}} {
+				for n := 1; n <= 40; n++ {
+					for pat := 0; pat < 4; pat++ {
+						first, second := []c10Entry{}, []c10Entry{}
+						for k := 0; k < n; k++ {
+							first = append(first, c10Entry{5 + k, "iri"})
+						}
+						for k := 0; k < n; k++ {
+							form := []string{"variant", "actor", "iri", "variant"}[pat]
+							if pat == 2 {
+								second = append(second, c10Entry{100 + k, "iri"}) // a new one before every repeated one
+							}
+							second = append(second, c10Entry{5 + (k*7)%n, form})
+							if pat == 3 && k%3 == 0 {
+								second = append(second, c10Entry{200 + k, "object"})
+							}
+						}
+						if pat == 0 {
+							second = append(second, c10Entry{300, "iri"})
+						}
+						c := c10Case{GoType: vr.gt, VType: vr.vt, Lists: map[string][]c10Entry{pp[0]: first, pp[1]: second}}
+						cell := fmt.Sprintf("long %s[%s] %s/%s n=%d pattern=%d", vr.gt, vr.vt, pp[0], pp[1], n, pat)
+						if !r.WantCell(cell) {
+							continue
+						}
+						total++
+						ds, dup := c10Run(c)
+						r.Case(cell, dup != "", "long n>12="+fmt.Sprint(n > 12))
+						if total%211 == 0 {
+							r.Sample(cell, map[string]interface{}{"layer": "long", "case": cell})
+						}
+						for k := range ds {
+							ds[k].Key += " long"
+						}
+						reportAll(r, "long", cell, ds, cell)
+					}
+				}
+			}
+		}
+		r.Cells(total, total)
+		r.Exhaustive("long", !r.Replaying())
 	}
 	if r.WantLayer("pairs", true) {
 		props := []string{"To", "CC", "Bto", "BCC"}
